@@ -4,15 +4,55 @@ From Coq Require Import Permutation.
 
 Definition Dom (a x : vec) : Prop := dom a x = true.
 
+(* --- the order on extended rationals ------------------------------------- *)
+
+Lemma xleb_refl a : xleb a a = true.
+Proof. destruct a; simpl; try reflexivity. apply Qleb_le. apply Qle_refl. Qed.
+
+Lemma xltb_irrefl a : xltb a a = false.
+Proof. unfold xltb. rewrite xleb_refl. reflexivity. Qed.
+
+Lemma xleb_trans a b c : xleb a b = true -> xleb b c = true -> xleb a c = true.
+Proof.
+  destruct a, b, c; simpl; intros H1 H2; try reflexivity; try discriminate.
+  apply Qleb_le. apply Qleb_le in H1. apply Qleb_le in H2. eapply Qle_trans; eauto.
+Qed.
+
+Lemma xleb_total a b : xleb a b = true \/ xleb b a = true.
+Proof.
+  destruct a, b; simpl; auto.
+  destruct (Qlt_le_dec q q0) as [H|H]; [left; apply Qleb_le; apply Qlt_le_weak; exact H | right; apply Qleb_le; exact H].
+Qed.
+
+Lemma xltb_leb_trans a b c : xltb a b = true -> xleb b c = true -> xltb a c = true.
+Proof.
+  unfold xltb. rewrite !negb_true_iff. intros H1 H2.
+  destruct (xleb c a) eqn:E; [|reflexivity].
+  rewrite (xleb_trans b c a H2 E) in H1. discriminate.
+Qed.
+
+Lemma xle_fin p q : xle (Fin p) (Fin q) <-> p <= q.
+Proof. unfold xle. simpl. apply Qleb_le. Qed.
+Lemma xlt_fin p q : xlt (Fin p) (Fin q) <-> p < q.
+Proof.
+  unfold xlt, xltb. simpl. rewrite negb_true_iff. split; intro H.
+  - apply Qnot_le_lt. intro Hc. apply Qleb_le in Hc. congruence.
+  - destruct (Qleb q p) eqn:E; [|reflexivity]. apply Qleb_le in E. exfalso. eapply Qlt_not_le; eauto.
+Qed.
+Lemma xle_pinf a : xle a PInf.  Proof. destruct a; reflexivity. Qed.
+Lemma xle_ninf a : xle NInf a.  Proof. destruct a; reflexivity. Qed.
+Lemma xlt_fin_pinf p : xlt (Fin p) PInf.  Proof. reflexivity. Qed.
+Lemma xlt_ninf_fin p : xlt NInf (Fin p).  Proof. reflexivity. Qed.
+Lemma xlt_pinf_pinf : ~ xlt PInf PInf.  Proof. discriminate. Qed.
+
 (* --- dominance is a strict partial order on vectors of equal length ----- *)
 
 Lemma all_le_refl a : all_le a a = true.
-Proof. induction a as [|p a IH]; simpl; [reflexivity|]. rewrite IH, andb_true_r. apply Qleb_le. apply Qle_refl. Qed.
+Proof. induction a as [|p a IH]; simpl; [reflexivity|]. rewrite IH, andb_true_r. apply xleb_refl. Qed.
 
 Lemma any_lt_irrefl a : any_lt a a = false.
 Proof.
-  induction a as [|p a IH]; simpl; [reflexivity|]. rewrite IH, orb_false_r.
-  destruct (Qltb p p) eqn:E; [|reflexivity]. apply Qltb_lt in E. exfalso. eapply Qlt_irrefl; eauto.
+  induction a as [|p a IH]; simpl; [reflexivity|]. rewrite IH, orb_false_r. apply xltb_irrefl.
 Qed.
 
 Lemma dom_irrefl a : dom a a = false.
@@ -24,7 +64,7 @@ Proof.
   induction a as [|p a IH]; intros [|q b] [|r c] H1 H2 Hab Hbc; simpl in *; try discriminate; try reflexivity.
   apply andb_true_iff in Hab as [Hpq Hab]. apply andb_true_iff in Hbc as [Hqr Hbc].
   apply andb_true_iff; split.
-  - apply Qleb_le. apply Qleb_le in Hpq. apply Qleb_le in Hqr. eapply Qle_trans; eauto.
+  - eapply xleb_trans; eauto.
   - apply (IH b c); [lia|lia|assumption|assumption].
 Qed.
 
@@ -34,7 +74,7 @@ Proof.
   induction a as [|p a IH]; intros [|q b] [|r c] H1 H2 Hlt Hab Hbc; simpl in *; try discriminate.
   apply andb_true_iff in Hab as [Hpq Hab]. apply andb_true_iff in Hbc as [Hqr Hbc].
   apply orb_true_iff in Hlt as [Hlt|Hlt]; apply orb_true_iff.
-  - left. apply Qltb_lt. apply Qltb_lt in Hlt. apply Qleb_le in Hqr. eapply Qlt_le_trans; eauto.
+  - left. eapply xltb_leb_trans; eauto.
   - right. apply (IH b c); [lia|lia|assumption|assumption|assumption].
 Qed.
 
@@ -50,28 +90,28 @@ Qed.
 
 (* reading of [dom] component-wise: the textbook definition *)
 Lemma all_le_spec a : forall x, length a = length x ->
-  (all_le a x = true <-> forall k, (k < length a)%nat -> nth k a 0 <= nth k x 0).
+  (all_le a x = true <-> forall k, (k < length a)%nat -> xle (nth k a xzero) (nth k x xzero)).
 Proof.
   induction a as [|p a IH]; intros [|q x] Hl; simpl in *; try discriminate.
   - split; [intros _ k Hk; lia | reflexivity].
-  - injection Hl as Hl. rewrite andb_true_iff, (IH x Hl), Qleb_le. split.
+  - injection Hl as Hl. rewrite andb_true_iff, (IH x Hl). unfold xle. split.
     + intros [Hpq Hr] [|k] Hk; [exact Hpq | apply Hr; lia].
     + intros H. split; [apply (H 0%nat); lia | intros k Hk; apply (H (S k)); lia].
 Qed.
 
 Lemma any_lt_spec a : forall x, length a = length x ->
-  (any_lt a x = true <-> exists k, (k < length a)%nat /\ nth k a 0 < nth k x 0).
+  (any_lt a x = true <-> exists k, (k < length a)%nat /\ xlt (nth k a xzero) (nth k x xzero)).
 Proof.
   induction a as [|p a IH]; intros [|q x] Hl; simpl in *; try discriminate.
   - split; [discriminate | intros [k [Hk _]]; lia].
-  - injection Hl as Hl. rewrite orb_true_iff, (IH x Hl), Qltb_lt. split.
+  - injection Hl as Hl. rewrite orb_true_iff, (IH x Hl). unfold xlt. split.
     + intros [H|[k [Hk H]]]; [exists 0%nat; split; [lia|exact H] | exists (S k); split; [lia|exact H]].
     + intros [[|k] [Hk H]]; [left; exact H | right; exists k; split; [lia|exact H]].
 Qed.
 
 Lemma dom_spec a x : length a = length x ->
-  (Dom a x <-> (forall k, (k < length a)%nat -> nth k a 0 <= nth k x 0)
-               /\ exists k, (k < length a)%nat /\ nth k a 0 < nth k x 0).
+  (Dom a x <-> (forall k, (k < length a)%nat -> xle (nth k a xzero) (nth k x xzero))
+               /\ exists k, (k < length a)%nat /\ xlt (nth k a xzero) (nth k x xzero)).
 Proof.
   intro Hl. unfold Dom, dom. rewrite andb_true_iff, (all_le_spec a x Hl), (any_lt_spec a x Hl). tauto.
 Qed.
